@@ -77,19 +77,18 @@ func r06_1(c *Ctx, rule string) {
 		c.R.Missing(rule, "update of sender.files in the walk callback")
 		return
 	}
-	ld, ok := eng.Strip(upd.Key).(*ssa.UnOp)
-	var cell *ssa.FreeVar
-	if ok && ld.Op == token.MUL {
-		cell, _ = ld.X.(*ssa.FreeVar)
-	}
-	if cell == nil {
-		c.R.Undecided(rule, base+"/id-counter", c.pos(upd), "the key of the sender.files update is not a load of a captured counter variable; shape not interpreted")
+	// the counter cell: a captured variable or a field of a captured state
+	// object, identified by the allocation it lives in
+	ld, _ := eng.Strip(upd.Key).(*ssa.UnOp)
+	cell := c.P.LoadedCell(upd.Key)
+	if ld == nil || cell == "" {
+		c.R.Undecided(rule, base+"/id-counter", c.pos(upd), "the key of the sender.files update is not a load of a counter variable that can be traced to one allocation; shape not interpreted")
 		return
 	}
 	// stores to the cell inside the callback
 	var stores []*ssa.Store
 	eng.Instrs(lit, func(in ssa.Instruction) {
-		if s, ok := in.(*ssa.Store); ok && s.Addr == ssa.Value(cell) {
+		if s, ok := in.(*ssa.Store); ok && c.P.CellID(s.Addr) == cell {
 			stores = append(stores, s)
 		}
 	})
@@ -100,7 +99,7 @@ func r06_1(c *Ctx, rule string) {
 	st := stores[0]
 	isInc := false
 	if bo, ok := st.Val.(*ssa.BinOp); ok && bo.Op == token.ADD {
-		if l, ok := bo.X.(*ssa.UnOp); ok && l.Op == token.MUL && l.X == ssa.Value(cell) {
+		if c.P.LoadedCell(bo.X) == cell {
 			if k, ok := eng.ConstInt(bo.Y); ok && k == 1 {
 				isInc = true
 			}
@@ -131,19 +130,15 @@ func r06_1(c *Ctx, rule string) {
 	// pre-increment key
 	c.R.Check(!eng.Dominates(st, ld), rule, base+"/files-key-pre-increment", c.pos(upd), "the registered id is read before the increment", "the id registered in sender.files is read after the increment: every id is off by one")
 	c.R.Check(isFieldLoad(upd.Value, "types.Stat.Path"), rule, base+"/files-value", c.pos(upd), "the id maps to the stat's path", "sender.files does not map the id to the stat's path")
-	// initial value
-	root := c.P.Census().Root(cell)
-	initOK := false
-	if root != nil && root.Parent() == w {
-		// a local starts as the zero value; an explicit initialisation must be 0 too
-		initOK = true
-		for _, r := range eng.Referrers(root) {
-			if s, ok := r.(*ssa.Store); ok && s.Addr == ssa.Value(root) {
-				if k, ok := eng.ConstInt(s.Val); !ok || k != 0 {
-					initOK = false
-					break
-				}
-			}
+	// initial value: the cell is allocated in sender.walk (zero value) and
+	// every other store to it writes 0
+	initOK := strings.HasPrefix(strings.TrimPrefix(cell, "*"), w.String()+":")
+	for _, s := range c.P.CellStores(cell) {
+		if s == st {
+			continue
+		}
+		if k, ok := eng.ConstInt(s.Val); !ok || k != 0 {
+			initOK = false
 		}
 	}
 	c.R.Check(initOK, rule, c.name(w)+"/id-counter/initial", c.P.Pos(w.Pos()), "the counter starts at 0 for each walk", "the id counter is not initialised to 0 in sender.walk")
@@ -273,7 +268,7 @@ func r06_3(c *Ctx, rule string) {
 	n := 0
 	eng.Instrs(fn, func(in ssa.Instruction) {
 		al, ok := in.(*ssa.Alloc)
-		if !ok || !strings.HasSuffix(types.TypeString(al.Type(), nil), "fsutil.sendHandle") {
+		if !ok || !strings.HasSuffix(eng.TypeStr(al.Type()), "fsutil.sendHandle") {
 			return
 		}
 		n++
@@ -348,7 +343,7 @@ func r06_4(c *Ctx, rule string) {
 		dst := eng.Strip(call.Common().Args[0])
 		al, _ := dst.(*ssa.Alloc)
 		ok := false
-		if al != nil && strings.HasSuffix(types.TypeString(al.Type(), nil), "fsutil.fileSender") {
+		if al != nil && strings.HasSuffix(eng.TypeStr(al.Type()), "fsutil.fileSender") {
 			f := structLitFields(al)
 			ok = f["id"] != nil && isFieldLoad(f["id"], "fsutil.sendHandle.id") && f["sender"] != nil
 		}
